@@ -25,6 +25,7 @@ import (
 	"sort"
 	"strings"
 	"sync"
+	"sync/atomic"
 	"time"
 
 	"com.tuntun.rangers/node/src/common"
@@ -460,6 +461,22 @@ func (r *run) verifyMsg(m tmsg, seq int) *model.ConsensusVerifyMessage {
 	}
 }
 
+// partyKeyMsg: a verify message of the faulty member whose block hash and signed data hash are the party
+// key of the proposal, with the member's real share key over it and a real beacon share.
+func (r *run) partyKeyMsg(prop string) *model.ConsensusVerifyMessage {
+	w := r.w
+	key := common.BytesToHash(common.FromHex(w.props[prop].key))
+	fk := w.g.SignSK[nMem-1]
+	return &model.ConsensusVerifyMessage{
+		BlockHash:  key,
+		RandomSign: groupsig.Sign(fk, w.genesis.Random),
+		Id:         "pk-" + prop,
+		SignInfo:   model.MakeSignInfo(key, groupsig.Sign(fk, key.Bytes()), w.g.IDs[nMem-1], common.ConsensusVersion),
+	}
+}
+
+var underFire int64
+
 func runHistory(w *world, h thist, quiet time.Duration) []map[string]interface{} {
 	r := &run{w: w, chain: &recChain{BlockChain: core.GetBlockChain(), existing: map[common.Hash]*types.Block{}}, net: &recNet{}}
 	r.vp = logical.VerifNewProcessor(w.g.Miners[0], w.joined, w.groups, r.chain, r.net)
@@ -488,7 +505,34 @@ func runHistory(w *world, h thist, quiet time.Duration) []map[string]interface{}
 			switch m.Type {
 			case "cast":
 				ccm := *w.props[m.Prop].ccm // the handler keeps a pointer into the message
-				r.vp.OnMessageCast(&ccm)
+				if m.V == 1 {
+					// while the proposal is handled the faulty member (the last one) keeps sending a share OVER
+					// THE PARTY KEY, filed under the party key: the party sits under that key from its creation
+					// until waitUntilDone has re-filed it under the block hash, round 1 is already running then
+					pk := r.partyKeyMsg(m.Prop)
+					stop, done := make(chan struct{}), make(chan struct{})
+					go func() {
+						defer close(done)
+						defer func() { recover() }()
+						for {
+							select {
+							case <-stop:
+								return
+							default:
+							}
+							c := *pk
+							r.vp.OnMessageVerify(&c)
+							time.Sleep(20 * time.Microsecond)
+						}
+					}()
+					r.vp.OnMessageCast(&ccm)
+					time.Sleep(2 * time.Millisecond)
+					close(stop)
+					<-done
+					atomic.AddInt64(&underFire, 1)
+				} else {
+					r.vp.OnMessageCast(&ccm)
+				}
 			case "verify", "wrongBlock", "forged":
 				r.vp.OnMessageVerify(r.verifyMsg(m, i))
 			case "own":
@@ -606,7 +650,7 @@ func main() {
 			}
 		}
 	}
-	fmt.Printf("c15p: histories=%d calls=%d cast=%d verify=%d own=%d wrongBlock=%d forged=%d timeout=%d finalised=%d twoBlocks=%d slow=%d partyErrors=%d events=%d\n",
-		len(hists), counts["calls"], counts["cast"], counts["verify"], counts["own"], counts["wrongBlock"], counts["forged"], counts["timeout"],
+	fmt.Printf("c15p: castUnderFire=%d histories=%d calls=%d cast=%d verify=%d own=%d wrongBlock=%d forged=%d timeout=%d finalised=%d twoBlocks=%d slow=%d partyErrors=%d events=%d\n",
+		underFire, len(hists), counts["calls"], counts["cast"], counts["verify"], counts["own"], counts["wrongBlock"], counts["forged"], counts["timeout"],
 		counts["finalised"], counts["twoBlocks"], counts["slow"], counts["partyErrors"], tr.N)
 }
